@@ -5,6 +5,7 @@ from .facts import strip_generics, Operand, Place
 from .analysis import sources, success_edges, reach_without_edges
 from .engine import Undecided
 from .rules_C10 import explore
+from . import preds, poscontrol
 
 TECHNIQUE = 'decision-table extraction of the (url, connection) matches by constrained CFG exploration, struct-field / variant coverage of every From impl by def-use origin, derive-symmetry and default inventory of the serde impls (including the expanded Deserialize visitors)'
 LEVEL_TEXT = 'static analysis of the three redis Config::builder functions, every From impl of deadpool-redis config types and the serde impls of PoolConfig / Timeouts / QueueMode'
@@ -52,7 +53,12 @@ def run(ctx):
         for blk in b.blocks:
             for s in blk.stmts:
                 if s.kind == 'assign' and s.rv.kind == 'agg' and s.rv.j['ak'] == 'tuple' and len(s.rv.ops) == 2 and s.place.is_local():
-                    f0 = {x[1] for x in sources(an, s.rv.ops[0]) if x[0] == 'field'}; f1 = {x[1] for x in sources(an, s.rv.ops[1]) if x[0] == 'field'}
+                    s0 = sources(an, s.rv.ops[0], deep=True); s1 = sources(an, s.rv.ops[1], deep=True)
+                    f0 = {x[1] for x in s0 if x[0] == 'field'}; f1 = {x[1] for x in s1 if x[0] == 'field'}
+                    filt = sorted({x[1] for x in s0 | s1 if x[0] == 'call' and x[1].split('::')[-1] in ('filter', 'and_then', 'take_if', 'map', 'or', 'xor', 'zip')})
+                    if ('%s.%s' % (cfg, fu) in f0 | f1) and filt:
+                        ctx.ob('R19.1', '%s: presence of url / connection is tested as given' % tag, False, ctx.where(b, s.line),
+                               'the matched options pass through %s first: a value that is present can be treated as absent (or vice versa)' % filt, construct='%s:presence-altered' % tag)
                     if '%s.%s' % (cfg, fu) in f0 and '%s.%s' % (cfg, fc) in f1:
                         tup = (s.place.local, '0', '1')
                     elif '%s.%s' % (cfg, fu) in f1 and '%s.%s' % (cfg, fc) in f0:
@@ -96,11 +102,12 @@ def run(ctx):
                    any(s[0] == 'call' and s[2] == x.idx for s in sources(an, blk.term.args[0]))]
             ctx.ob('R19.1', '%s: a constructor error (malformed URL) is propagated' % tag, len(nxt) == 1, ctx.where(b, x.term.line), '', construct='%s:error-propagation' % tag)
         # no panic site
-        bad = [blk for blk in b.blocks if not blk.cleanup and (blk.term.kind == 'assert' or (blk.term.kind == 'call' and any(n.split('::')[-1] in ('unwrap', 'expect') or n.startswith('core::panicking') or n.startswith('std::panicking') for n in blk.term.callee_names())))]
+        bad = [blk for blk in b.blocks if not blk.cleanup and (preds.is_panic_assert(blk.term) or (blk.term.kind == 'call' and preds.panic_call_names(blk.term.callee_names())))]
         ctx.ob('R19.1', '%s: builder() has no panic site' % tag, not bad, ctx.where(b), str([x.term.line for x in bad]), construct='%s:panic' % tag)
         # pool section passed through
         pc = [blk for blk in b.blocks if blk.term.kind == 'call' and not blk.cleanup and blk.term.rcallee and strip_generics(blk.term.rcallee).endswith('PoolBuilder::config')]
         ctx.ob('R19.1', '%s: the pool section reaches the builder' % tag, len(pc) == 1 and any(s[0] == 'call' and s[1].endswith('get_pool_config') for s in sources(an, pc[0].term.args[1])), ctx.where(b), '', construct='%s:pool-config' % tag)
+    poscontrol.assert_controls(ctx, ['panic:', 'assert:'])
     fe = prog.bodies.get('<deadpool_redis::config::ConfigError as std::convert::From<redis::RedisError>>::from')
     if fe is not None:
         made = [s.rv.j['variant'] for blk in fe.blocks for s in blk.stmts if s.kind == 'assign' and s.rv.kind == 'agg' and s.rv.j.get('adt') == 'deadpool_redis::config::ConfigError']
